@@ -246,6 +246,38 @@ def run_c08(ctx):
     ctx.assumptions.append("the Resolver-interface-only limitation documented by ggql is outside the claim: these families run on the reflection strategy")
 
 
+def leaf_list_failures(ctx):
+    """C06 for the members of lists of leaves in every Go shape a resolver can hand over (typed slices of every kind,
+    lists of lists, ListResolvers): Coerce.tla prescribes, per member, the value or null plus ONE error at [key, index].
+    The cases and the harness are those of the coercion family; what C05's known deviations explain is C05's business
+    and is skipped here."""
+    import coerce
+    devs5 = coerce.known_devs("C05")
+    fams = ["olist", "otyped", "otyped2", "olist2"]
+    res = vlib.run_tlc(ctx, "MCCoerce", coerce.MC_CFG.format(fams=coerce.tlaset(fams), known=coerce.tlaset(sorted(devs5)), maxlen=2),
+                       timeout=1500, xss="64m")
+    vlib.require_clean(res, "MCCoerce %s" % fams)
+    uni = (res.mark("@@UNI") or [None])[0]
+    if uni is None or not res.vecs:
+        raise vlib.MachineryError("MCCoerce: no universe or no vectors for the list families")
+    up = os.path.join(ctx.scratch, "uni-lists.json")
+    vp = os.path.join(ctx.scratch, "vec-lists.json")
+    with open(up, "w") as fh:
+        json.dump(uni, fh)
+    with open(vp, "w") as fh:
+        json.dump(res.vecs, fh)
+    rep = vlib.run_harness_json(ctx, "coerce", ["replay", "-universe", up, "-vectors", vp], timeout=1500)
+    if rep["_rc"] != 0:
+        raise vlib.MachineryError("coerce replay failed: %s" % rep["_stderr"][-1500:])
+    ctx.evaluations += rep["evaluations"]
+    for h in rep.get("nontrivial_hashes") or []:
+        ctx.nontrivial.add(h)
+    ctx.extra["leaf_list_cases"] = len(res.vecs)
+    for m in rep["mismatches"]:
+        if not m.get("known"):
+            ctx.violations.append({"from": "leaf-lists", "what": m["what"], "case": m["case"]})
+
+
 def run(ctx):
     if ctx.prop == "C11":
         return run_c11(ctx)
@@ -264,6 +296,8 @@ def run(ctx):
             tvecs, tuni, _ = enumerate_cases(ctx, ["topmeta", "topplain"], module="MCExecTop")
             trep = replay(ctx, tvecs, tuni, "replay-utop", strategies="iface,any")
             absorb(ctx, trep, "replay-utop", aspects, devs, ctx.prop)
+        if ctx.prop == "C06":
+            leaf_list_failures(ctx)
         record_and_judge(ctx, uni, "record", aspects, devs, ctx.prop, 1500 if ctx.tier == "quick" else 12000,
                          universes=12 if ctx.tier == "quick" else 60)
         ctx.exhaustive = True
